@@ -214,6 +214,7 @@ func (h *ValueReader) ReadObject(data []byte) (val map[string]interface{}, p int
 	if mapSize == 0 {
 		mapSize = h.lastMapSize
 	}
+	h.lastMapSize = 0
 	h.objVal = make(map[string]interface{}, mapSize)
 	p, err = HandleObjectValues(data[p:], h, &h.buf)
 	if err != nil {
@@ -270,6 +271,7 @@ func (h *ValueReader) ReadArray(data []byte) (val []interface{}, p int, err erro
 	if sliceSize == 0 {
 		sliceSize = h.lastSliceSize
 	}
+	h.lastSliceSize = 0
 	h.arrVal = make([]interface{}, 0, sliceSize)
 	p, err = HandleArrayValues(data, h, &h.buf)
 	if err != nil {
